@@ -270,6 +270,8 @@ type caProxy struct {
 
 	mu       sync.Mutex
 	orders   map[string]int // new-order POSTs per identifier (lower-cased)
+	orderOf  map[string]string // CA order id → identifier
+	finals   map[string]int    // finalize (certificate issuance) POSTs per identifier
 	accounts int
 	managers map[string]*proxyReg // scenario tag → registration
 }
@@ -287,7 +289,7 @@ var (
 func sharedProxy(t *testing.T) *caProxy {
 	proxyOnce.Do(func() {
 		ca := autocert.VerifNewCAServer(t).ChallengeTypes("tls-alpn-01").Start()
-		p := &caProxy{ca: ca, caURL: ca.URL(), orders: map[string]int{}, managers: map[string]*proxyReg{},
+		p := &caProxy{ca: ca, caURL: ca.URL(), orders: map[string]int{}, orderOf: map[string]string{}, finals: map[string]int{}, managers: map[string]*proxyReg{},
 			hc: &http.Client{Transport: &http.Transport{MaxIdleConnsPerHost: 32}}}
 		p.srv = httptest.NewServer(p)
 		theProxy = p
@@ -312,6 +314,18 @@ func (p *caProxy) orderCount(ident string) int {
 	p.mu.Lock()
 	defer p.mu.Unlock()
 	return p.orders[strings.ToLower(ident)]
+}
+
+// finalsWithTag sums finalize POSTs (certificates requested from the CA) whose identifier contains tag.
+func (p *caProxy) finalsWithTag(tag string) (n int) {
+	p.mu.Lock()
+	defer p.mu.Unlock()
+	for id, c := range p.finals {
+		if strings.Contains(id, tag) {
+			n += c
+		}
+	}
+	return
 }
 
 // ordersWithTag sums new-order POSTs whose identifier contains tag.
@@ -373,6 +387,26 @@ func (p *caProxy) ServeHTTP(w http.ResponseWriter, r *http.Request) {
 			}
 		}
 	}
+	var orderIdents []string
+	if path == "/new-order" {
+		var outer struct{ Payload string }
+		var pay struct{ Identifiers []struct{ Value string } }
+		if json.Unmarshal(body, &outer) == nil {
+			if b, err := base64.RawURLEncoding.DecodeString(outer.Payload); err == nil {
+				json.Unmarshal(b, &pay)
+			}
+		}
+		for _, id := range pay.Identifiers {
+			orderIdents = append(orderIdents, strings.ToLower(id.Value))
+		}
+	}
+	if strings.HasPrefix(path, "/new-cert/") {
+		p.mu.Lock()
+		if id, ok := p.orderOf[strings.TrimPrefix(path, "/new-cert/")]; ok {
+			p.finals[id]++
+		}
+		p.mu.Unlock()
+	}
 	req, err := http.NewRequestWithContext(r.Context(), r.Method, p.caURL+path, bytes.NewReader(body))
 	if err != nil {
 		http.Error(w, err.Error(), 500)
@@ -387,6 +421,11 @@ func (p *caProxy) ServeHTTP(w http.ResponseWriter, r *http.Request) {
 		return
 	}
 	defer res.Body.Close()
+	if loc := res.Header.Get("Location"); len(orderIdents) > 0 && strings.Contains(loc, "/orders/") {
+		p.mu.Lock()
+		p.orderOf[loc[strings.LastIndex(loc, "/")+1:]] = orderIdents[0]
+		p.mu.Unlock()
+	}
 	out, _ := io.ReadAll(res.Body)
 	out = bytes.ReplaceAll(out, []byte(p.caURL), []byte(p.srv.URL))
 	for k, vs := range res.Header {
